@@ -9,6 +9,8 @@
 
 #include <phosg/Strings.hh>
 
+#include <memory>
+
 #include "trace.hh"
 
 using namespace std;
@@ -575,7 +577,11 @@ static void bounds_sweep(vt::Rng& r, size_t n) {
   reset_event();
   uint8_t* buf = (uint8_t*)malloc(n ? n : 1);
   for (size_t i = 0; i < n; i++) buf[i] = (uint8_t)(r.chance(15) ? 0 : r.chance(10) ? '\n' : r.below(256));
-  StringReader rd(buf, n);
+  // the three ways of making a reader: over caller memory (exact-size heap block), over a std::string, owning a shared string
+  // (the last two have a NUL right behind the data that does not belong to it)
+  auto owned = make_shared<string>((const char*)buf, n);
+  int ctor_kind = (int)r.below(3);
+  StringReader rd = ctor_kind == 0 ? StringReader(buf, n) : ctor_kind == 1 ? StringReader(*owned) : StringReader(owned);
   ev_rnew("data", buf, n);
   auto B = boundary_set(n);
   // positional typed reads: one accessor per width class at every boundary offset
@@ -633,7 +639,9 @@ static void cursor_history(vt::Rng& r) {
   size_t n = r.chance(20) ? 0 : r.below(40);
   uint8_t* buf = (uint8_t*)malloc(n ? n : 1);
   for (size_t i = 0; i < n; i++) buf[i] = (uint8_t)(r.chance(20) ? 0 : r.chance(20) ? '\n' : r.chance(10) ? '\r' : 'a' + r.below(4));
-  StringReader rd(buf, n);
+  auto owned = make_shared<string>((const char*)buf, n);
+  int ctor_kind = (int)r.below(3);
+  StringReader rd = ctor_kind == 0 ? StringReader(buf, n) : ctor_kind == 1 ? StringReader(*owned) : StringReader(owned);
   ev_rnew("data", buf, n);
   auto B = boundary_set(n);
   auto sz = [&]() -> uint64_t { return r.chance(75) ? r.below(n + 3) : B[r.below(B.size())]; };
